@@ -103,7 +103,7 @@ class C10(Check):
     rule = (
         "ECU models (1-4 sessions, per-session service sets incl. services offered in no / other sessions only and vendor-specific ids, sub-function lists) x "
         "scanner {services, identifiers} x session lists incl. unreachable and repeated sessions / none x skip maps incl. 'whole session' x scan_response_ids x "
-        "check_session x reset; identifier scan: service {0x22, 0x27, 0x2E, 0x31} x windows of 16-400 identifiers at drawn positions (0, 0xFFFF edge, end > 0x7F for "
+        "check_session (with ECUs that fall back to the default session when probed with 11 00, on their own after the k-th serviceNotSupported, or leave one recovery request unanswered) x reset x response-code quirks (implemented service answering every request with one fixed NRC; unimplemented service answering garbage; identifiers busy the first k times); identifier scan: service {0x22, 0x27, 0x2E, 0x31} x windows of 16-400 identifiers at drawn positions (0, 0xFFFF edge, end > 0x7F for "
         "0x27) x payload x p_identifier raised so that windows contain hits x latency/segmentation/tester-present phase. non-trivial = at least one finding / "
         "positive identifier and at least one service or session that must NOT be reported; distinct = (scanner, model shape, options, findings)."
     )
